@@ -65,7 +65,7 @@ static void set_metadata (SNDFILE *f)
 	sf_command (f, SFC_SET_CHANNEL_MAP_INFO, map, sizeof (map)) ;
 }
 
-struct HandleCfg { int hk ; int fi ; bool meta ; } ;
+struct HandleCfg { int hk ; int fi ; bool meta ; int variant = 0 ; } ;	// variant: non-default settings + non-zero read position (query commands)
 static std::vector<uint8_t> base_file [NFMT] [2] ;
 
 static void build_base_files ()
@@ -80,7 +80,20 @@ static void build_base_files ()
 	}
 }
 
+static SNDFILE *open_handle_base (const HandleCfg &h, MemFile &mf) ;
 static SNDFILE *open_handle (const HandleCfg &h, MemFile &mf)
+{	SNDFILE *f = open_handle_base (h, mf) ;
+	if (f && h.variant)
+	{	// the settings a query must not disturb are made pairwise different, and the read position is moved off zero
+		if (h.variant == 1) sf_command (f, SFC_SET_NORM_DOUBLE, nullptr, SF_FALSE) ;
+		if (h.variant == 2) sf_command (f, SFC_SET_NORM_FLOAT, nullptr, SF_FALSE) ;
+		if (h.variant == 3) { sf_command (f, SFC_SET_CLIPPING, nullptr, SF_TRUE) ; sf_command (f, SFC_SET_NORM_DOUBLE, nullptr, SF_FALSE) ; sf_command (f, SFC_SET_NORM_FLOAT, nullptr, SF_FALSE) ; }
+		if (h.hk == H_READ || h.hk == H_RDWR) { short tmp [20] ; sf_readf_short (f, tmp, 10) ; }
+		if (h.hk == H_WRITE) { short tmp [6] = { 9, 8, 7, 6, 5, 4 } ; sf_writef_short (f, tmp, 3) ; }
+	}
+	return f ;
+}
+static SNDFILE *open_handle_base (const HandleCfg &h, MemFile &mf)
 {	OpenSpec s ; s.format = fmts [h.fi].format ; s.ch = 2 ; s.rate = 44100 ;
 	if (h.hk == H_NULL) return nullptr ;
 	if (h.hk == H_WRITE)
@@ -222,6 +235,7 @@ static Case cell_case (const Group &g, const Cell &cell)
 {	Case c ; const Cmd &cm = cmds [g.ci] ;
 	c.set ("cmd", cm.name) ; c.seti ("cmdid", cm.id) ; c.set ("handle", hname [g.h.hk]) ;
 	c.set ("format", g.h.hk == H_NULL ? "-" : fmts [g.h.fi].name) ; c.seti ("fi", g.h.fi) ; c.seti ("meta", g.h.meta) ;
+	c.seti ("variant", g.h.variant) ;
 	c.seti ("datasize", cell.datasize) ; c.set ("data", fill_name [cell.data_kind]) ; c.seti ("dk", cell.data_kind) ; c.seti ("ci", g.ci) ; c.seti ("hk", g.h.hk) ;
 	c.set ("size_rel", cell.datasize < cm.nat ? "lt" : cell.datasize == cm.nat ? "eq" : "gt") ;
 	return c ;
@@ -267,7 +281,7 @@ static long run_group_child (const Group &g, const std::vector<Cell> &cells, lon
 
 static Result replay_cell (const Case &c)
 {	// in-process single cell (a crash aborts the replay process; the driver interprets that)
-	Group g ; g.ci = (int) c.geti ("ci") ; g.h.hk = (int) c.geti ("hk") ; g.h.fi = (int) c.geti ("fi") ; g.h.meta = c.geti ("meta") != 0 ;
+	Group g ; g.ci = (int) c.geti ("ci") ; g.h.hk = (int) c.geti ("hk") ; g.h.fi = (int) c.geti ("fi") ; g.h.meta = c.geti ("meta") != 0 ; g.h.variant = (int) c.geti ("variant", 0) ;
 	Cell cell { (int) c.geti ("datasize"), (int) c.geti ("dk") } ;
 	SNDFILE *f = nullptr ; MemFile mf ; bool ntv = false ;
 	std::string r = run_cell (cmds [g.ci], g.h, cell, f, mf, ntv) ;
@@ -288,7 +302,10 @@ int main (int argc, char **argv)
 	std::vector<Group> groups ;
 	for (int ci = 0 ; ci < NCMD ; ci++)
 	{	groups.push_back ({ ci, { H_NULL, 0, false } }) ;
-		for (int hk = H_READ ; hk <= H_RDWR ; hk++) for (int fi = 0 ; fi < NFMT ; fi++) for (int m = 0 ; m < 2 ; m++) groups.push_back ({ ci, { hk, fi, m != 0 } }) ;
+		for (int hk = H_READ ; hk <= H_RDWR ; hk++) for (int fi = 0 ; fi < NFMT ; fi++) for (int m = 0 ; m < 2 ; m++)
+		{	groups.push_back ({ ci, { hk, fi, m != 0 } }) ;
+			if (cmds [ci].kind == K_QUERY && m == 1) for (int v = 1 ; v <= 3 ; v++) { Group g { ci, { hk, fi, true } } ; g.h.variant = v ; groups.push_back (g) ; }
+		}
 	}
 	bool failed = false ; long gi = 0 ;
 	for (auto &g : groups)
